@@ -482,6 +482,13 @@ func (k *ksGen) restore(src *kgInst, w *kgWallet, n int, forced int) *kgInst {
 			k.g.Stats["restore-mnemonic-respaced"]++
 			k.g.Stats[fmt.Sprintf("respaced-%d", sp)]++
 		}
+		// … and first, now and then, the same words in another letter case: not list words, so the restore must be refused
+		// and leave nothing behind (seed C04-5: the validators lower-cased the sentence while the seed was derived from
+		// the text as typed - a wallet whose id its own stored entropy cannot reproduce)
+		if k.h%2 == 0 || r.Intn(3) == 0 {
+			cv := 6 + r.Intn(3)
+			k.op(fmt.Sprintf("restore-mnemonic-case-%d", cv), "impmn %d %s %d %d %d", n, w.name, he, hi, cv)
+		}
 		k.op("restore-mnemonic", "impmn %d %s %d %d %d", n, w.name, he, hi, sp)
 		nw.ex, nw.in = he, hi
 		if nw.ex == 0 {
